@@ -23,14 +23,19 @@ var destructiveCalls = map[string]bool{
 }
 
 func runC02(c *Ctx, pr *PropertyRun) {
-	p := c.P
+	_ = c.P
 	pr.Explanation = "Decided: the necessary ordering condition 'no failure is reported after a destructive effect'. (1) As a trace property of the fault exploration of the whole file server (webdav.(*Handler).ServeHTTP with LocalFileSystem bound, interpreted abstractly; nothing is executed): for every method, every resource state and every outcome of every OS call, no run answers 4xx/5xx after os.Create/OpenFile(O_TRUNC)/Remove/RemoveAll/Rename/Mkdir has succeeded (the failure of a destructive call itself is assumed to leave no effect); " +
 		"(2) preconditions first: in every LocalFileSystem method the If-Match/If-None-Match check and every localPath check dominate the first destructive call. NOT decided: what a partially failed single OS call leaves behind (RemoveAll is not atomic), and the timing of request cancellation."
 	pr.Assumptions = append(pr.Assumptions, "a destructive OS call that fails leaves no effect (true for all listed calls except the non-atomic RemoveAll)", "one resource plus at most one member per directory")
 	pr.Trusted = append(pr.Trusted, "golang.org/x/tools/go/ssa v0.29.0", "the interpreter's OS-call models (checker/p_fs.go)")
 	fsFaultRules(c, pr, "C02")
+	preconditionFirstRule(c, pr, "C02")
+}
 
-	r := NewRule("C02", "C02.precondition-first", "the conditional-header check and every sanitiser check dominate the first destructive OS call of each LocalFileSystem method (E4)")
+// preconditionFirstRule is shared by C02 and C04.
+func preconditionFirstRule(c *Ctx, pr *PropertyRun, prop string) {
+	p := c.P
+	r := NewRule(prop, prop+".precondition-first", "the conditional-header check and every sanitiser check dominate the first destructive OS call of each LocalFileSystem method (E4)")
 	pr.Rules = append(pr.Rules, r)
 	cond := p.MustFunc(r, pkgWebdav, "checkConditionalMatches")
 	san := p.MustFunc(r, pkgWebdav, "(LocalFileSystem).localPath")
